@@ -286,3 +286,80 @@ def const_ctx_concrete(p, m):
             return False, ('%s: request 1 (%s, prec %d, %r) then request 2 (%s, prec %d, %r) on the same constant object gives %r, %r; '
                            'each alone gives %r, %r' % (name, via1, q1, r1, via2, q2, r2, a, b, wa, wb))
     return None, 'UNCONFIRMED: sequence-dependent for an arbitrary constant function, but the real %s shows no difference at the scanned precisions' % name
+
+
+# ------------------------------------------------------------------------------ matrix LU cache: invalidation on mutation
+def _drive_setitem(A, key, value):
+    A[key] = value
+    return A._LU
+
+
+_drive_setitem._pysym_interpret = True
+
+
+def lu_invalidate(p):
+    """one mutation step from a matrix whose LU cache is filled: after A[i, j] = v (every in-range index pair, symbolic value
+    including exact zero; or a slice assignment) returns normally, the cached decomposition is gone (A._LU is None) -- it
+    describes the matrix before the mutation."""
+    import mpmath
+    mp = mpmath.mp.clone()
+    n = p.get('n', 3)
+    A = mp.matrix([[(i * n + j + 1) % 5 for j in range(n)] for i in range(n)])    # has stored zeros and non-zeros
+    A._LU = ('stale-L', 'stale-p')
+    ob = Ob(64, timeout_s=p.get('_t', 30))
+    kind, keykind = p['value'], p['key']
+    # indices are grid parameters (the sparse store is a dict keyed by index pairs); the assigned value is symbolic
+    i, j = p.get('i', 0), p.get('j', 0)
+    if keykind == 'elem':
+        key = (i, j)
+    elif keykind == 'row':
+        key = (i, slice(None))
+    elif keykind == 'col':
+        key = (slice(None), j)
+    else:
+        key = (slice(None), slice(None))
+    if kind == 'int':
+        v = ob.int('v', -2, 2)
+    elif kind == 'mpf':
+        v = mp.make_mpf(ob.mpf('x', 10, E=50))
+    elif kind == 'zero':
+        v = mp.mpf(0)
+    elif kind == 'mpc0':
+        v = mp.mpc(0, 0)
+    else:
+        v = 0.0
+    import checks.fam_cache as me
+    outs = ob.run(me._drive_setitem, [A, key, v])
+
+    def good(val, st):
+        return val is None
+    return finish(ob, ob.prove(outs, good))
+
+
+def lu_invalidate_concrete(p, m):
+    import mpmath
+    mp = mpmath.mp.clone()
+    n = p.get('n', 3)
+    A = mp.matrix([[(i * n + j + 1) % 5 for j in range(n)] for i in range(n)])
+    A = A + mp.eye(n) * 7
+    i, j = p.get('i', 0), p.get('j', 0)
+    key = {'elem': (i, j), 'row': (i, slice(None)), 'col': (slice(None), j), 'all': (slice(None), slice(None))}[p['key']]
+    kind = p['value']
+    if kind == 'int':
+        v = m.get('v', 0)
+    elif kind == 'mpf':
+        from checks.fam_arith import mk_tuple
+        v = mp.make_mpf(mk_tuple(m, 'x', 10))
+    else:
+        v = {'zero': mp.mpf(0), 'mpc0': mp.mpc(0, 0), 'float0': 0.0}[kind]
+    L0, p0 = mp.LU_decomp(A)
+    old = A.copy()
+    A[key] = v
+    if A == old:
+        return None, 'UNCONFIRMED: the assignment does not change this matrix'
+    L1, p1 = mp.LU_decomp(A)
+    B_ = mp.matrix(A.tolist())       # same entries, no history
+    L2, p2 = mp.LU_decomp(B_)
+    ok = (L1 == L2 and p1 == p2)
+    return ok, 'LU_decomp(A); A[%r] = %r; LU_decomp(A) returns %r, %r but a matrix with the same entries and no history gives %r, %r' % (
+        key, v, L1.tolist(), p1, L2.tolist(), p2)
